@@ -14,8 +14,8 @@ CONSTANTS
   MaxPub = 6
   MaxRead = 4
   MaxStall = 2
-  MaxSweep = 3
+  MaxSweep = 1
   MaxLeave = 1
   MaxPubB = 2
 INVARIANTS Quiescent QueueBound WholeUnits
-VIEW GView
+ACTION_CONSTRAINT EmitA
